@@ -119,7 +119,7 @@ func (w *lfWorld) lfTurnOpen(name string) bool {
 func lfOpRestart(target string) *lfOp {
 	return &lfOp{label: "restart(" + target + ")", kind: "restart", touches: []string{"?" + target},
 		enabled: func(w *lfWorld) bool { return !w.lfTurnOpen(target) },
-		run: func(w *lfWorld) string { return lfErrClass(w.pid(target).Restart(c06Ctx)) }}
+		run:     func(w *lfWorld) string { return lfErrClass(w.pid(target).Restart(c06Ctx)) }}
 }
 
 // lfOpSystemStop: ActorSystem.Stop. It calls Shutdown on the user guardian (tracked as "$ug", whose
@@ -403,40 +403,42 @@ func c06Check(evs []lfEv) []vsched.Violation {
 func c06Run(t *testing.T, sc c06Scn) func(c *vsched.Chooser) vsched.Outcome {
 	return func(c *vsched.Chooser) vsched.Outcome {
 		var out vsched.Outcome
+		w := &lfWorld{}
 		p := vfBubble(t, func() {
-			w := &lfWorld{}
-			w.sys = lfNewSystem("c06")
-			sc.build(w)
-			vsched.Settle()
-			var extra func() []lfEvent
-			if sc.extra != nil {
-				extra = sc.extra(w)
-			}
-			steps := sc.steps
-			if steps == 0 {
-				steps = 40
-			}
-			w.loop(c, steps, extra, nil, nil)
-			hung := w.teardown()
-			evs := w.snapshot()
-			vs := c06Check(evs)
-			seen := map[string]bool{}
-			for _, v := range vs {
-				if !seen[v.Signature] {
-					seen[v.Signature] = true
-					out.Violations = append(out.Violations, v)
+			lfGuard(w, &out, func() {
+				w.sys = lfNewSystem("c06")
+				sc.build(w)
+				vsched.Settle()
+				var extra func() []lfEvent
+				if sc.extra != nil {
+					extra = sc.extra(w)
 				}
-			}
-			var res []string
-			for _, op := range w.ops {
-				if op.started {
-					res = append(res, op.label+"="+op.result)
+				steps := sc.steps
+				if steps == 0 {
+					steps = 40
 				}
-			}
-			out.Obs = strings.Join(w.steps, ";") + " || " + lfPerActor(evs) + " || " + strings.Join(res, ",")
-			if len(hung) > 0 {
-				out.Invalid = "client operation did not return: " + strings.Join(hung, ",")
-			}
+				w.loop(c, steps, extra, nil, nil)
+				hung := w.teardown()
+				evs := w.snapshot()
+				vs := c06Check(evs)
+				seen := map[string]bool{}
+				for _, v := range vs {
+					if !seen[v.Signature] {
+						seen[v.Signature] = true
+						out.Violations = append(out.Violations, v)
+					}
+				}
+				var res []string
+				for _, op := range w.ops {
+					if op.started {
+						res = append(res, op.label+"="+op.result)
+					}
+				}
+				out.Obs = strings.Join(w.steps, ";") + " || " + lfPerActor(evs) + " || " + strings.Join(res, ",")
+				if len(hung) > 0 {
+					out.Invalid = "client operation did not return: " + strings.Join(hung, ",")
+				}
+			})
 		})
 		if p != nil {
 			out.Invalid = fmt.Sprintf("panic in bubble: %v", p)
